@@ -103,6 +103,11 @@ func c05Render(v reflect.Value, plan c05Plan) (*av.V, interface{}) {
 // c05Check encodes the rendered objects (one or several instances in a list)
 // with the reference encoder and checks what the Go decoder makes of them.
 func c05Check(objs []*av.V, exps []interface{}, opt refcodec.EncOptions, ch refcodec.Choices) ([]byte, string, string) {
+	return c05CheckWith(nil, objs, exps, opt, ch)
+}
+
+// c05CheckWith decodes with dec when given (a decoder that has read other messages before).
+func c05CheckWith(dec *hessian.Decoder, objs []*av.V, exps []interface{}, opt refcodec.EncOptions, ch refcodec.Choices) ([]byte, string, string) {
 	var root *av.V
 	if len(objs) == 1 {
 		root = objs[0]
@@ -118,7 +123,13 @@ func c05Check(objs []*av.V, exps []interface{}, opt refcodec.EncOptions, ch refc
 	}
 	var out interface{}
 	var err error
-	if pv, st := guard(func() { out, err = hessian.ToObject(b, c05TM) }); pv != nil || err != nil {
+	if pv, st := guard(func() {
+		if dec != nil {
+			out, err = dec.Decode(b)
+		} else {
+			out, err = hessian.ToObject(b, c05TM)
+		}
+	}); pv != nil || err != nil {
 		return b, fmt.Sprintf("decode failed: %v %v [%s]", err, pv, st), ""
 	}
 	if len(objs) == 1 {
@@ -274,63 +285,74 @@ func TestC05(t *testing.T) {
 	cfg := zoo.DefaultCfg()
 	cfg.MaxBig, cfg.Budget, cfg.NoBigStrings, cfg.TimeMillis = 10, 80, true, true
 	check(t, "C05", func(rt *rapid.T, c *caseInfo) {
-		ninst := rapid.IntRange(1, 5).Draw(rt, "instances")
-		var objs []*av.V
-		var exps []interface{}
-		var descs []string
-		plans := map[string]c05Plan{} // one definition per class on a stream
-		for i := 0; i < ninst; i++ {
-			typ := zoo.FTypes[rapid.IntRange(0, len(zoo.FTypes)-1).Draw(rt, "type")]
-			g := zoo.NewG(rt, cfg)
-			v := reflect.New(typ).Elem()
-			v.Set(g.Value(typ))
-			if _, perr := zoo.Project(v.Addr().Interface(), nil); perr != nil {
-				rt.Skip("unrepresentable")
+		// one decoder reads two messages whose definitions of the same classes differ
+		// (two peers, or a newer and an older version of a class)
+		shared := hessian.NewDecoder(nil, c05TM)
+		nmsg := rapid.IntRange(1, 2).Draw(rt, "messages")
+		for msg := 0; msg < nmsg; msg++ {
+			ninst := rapid.IntRange(1, 5).Draw(rt, "instances")
+			var objs []*av.V
+			var exps []interface{}
+			var descs []string
+			plans := map[string]c05Plan{} // one definition per class on a stream
+			for i := 0; i < ninst; i++ {
+				typ := zoo.FTypes[rapid.IntRange(0, len(zoo.FTypes)-1).Draw(rt, "type")]
+				g := zoo.NewG(rt, cfg)
+				v := reflect.New(typ).Elem()
+				v.Set(g.Value(typ))
+				if _, perr := zoo.Project(v.Addr().Interface(), nil); perr != nil {
+					rt.Skip("unrepresentable")
+				}
+				plan, ok := plans[typ.Name()]
+				if !ok {
+					nf := typ.NumField()
+					perm := rapid.Permutation(seq(nf)).Draw(rt, "perm")
+					keep := rapid.IntRange(0, nf).Draw(rt, "keep")
+					if rapid.Bool().Draw(rt, "keepAll") {
+						keep = nf
+					}
+					plan.order = perm[:keep]
+					plan.extras = make([][]int, keep+1)
+					for e := rapid.IntRange(0, 3).Draw(rt, "nExtras"); e > 0; e-- {
+						pos := rapid.IntRange(0, keep).Draw(rt, "extraPos")
+						plan.extras[pos] = append(plan.extras[pos], rapid.IntRange(0, 11).Draw(rt, "extraKind"))
+					}
+					plan.upper = make([]bool, keep)
+					for j := range plan.upper {
+						plan.upper[j] = rapid.IntRange(0, 3).Draw(rt, "upper") == 0
+					}
+					plans[typ.Name()] = plan
+				}
+				obj, exp := c05Render(v, plan)
+				objs = append(objs, obj)
+				exps = append(exps, exp)
+				descs = append(descs, fmt.Sprintf("%s %v", typ.Name(), plan))
 			}
-			plan, ok := plans[typ.Name()]
-			if !ok {
-				nf := typ.NumField()
-				perm := rapid.Permutation(seq(nf)).Draw(rt, "perm")
-				keep := rapid.IntRange(0, nf).Draw(rt, "keep")
-				if rapid.Bool().Draw(rt, "keepAll") {
-					keep = nf
-				}
-				plan.order = perm[:keep]
-				plan.extras = make([][]int, keep+1)
-				for e := rapid.IntRange(0, 3).Draw(rt, "nExtras"); e > 0; e-- {
-					pos := rapid.IntRange(0, keep).Draw(rt, "extraPos")
-					plan.extras[pos] = append(plan.extras[pos], rapid.IntRange(0, 11).Draw(rt, "extraKind"))
-				}
-				plan.upper = make([]bool, keep)
-				for j := range plan.upper {
-					plan.upper[j] = rapid.IntRange(0, 3).Draw(rt, "upper") == 0
-				}
-				plans[typ.Name()] = plan
+			k := rapid.IntRange(0, 40).Draw(rt, "classIndexOffset")
+			long := rapid.Bool().Draw(rt, "longForm")
+			c.set("instances", descs)
+			c.set("class_index_offset", k)
+			r.Current(fmt.Sprintf("C05 random %v k=%d long=%v", descs, k, long))
+			opt := refcodec.EncOptions{PadExact: k, ForceLongObject: long, HoistAnywhere: rapid.Bool().Draw(rt, "hoist")}
+			var useDec *hessian.Decoder
+			if nmsg == 2 {
+				useDec = shared
+				descs = append(descs, fmt.Sprintf("message %d of 2 on one decoder", msg+1))
 			}
-			obj, exp := c05Render(v, plan)
-			objs = append(objs, obj)
-			exps = append(exps, exp)
-			descs = append(descs, fmt.Sprintf("%s %v", typ.Name(), plan))
-		}
-		k := rapid.IntRange(0, 40).Draw(rt, "classIndexOffset")
-		long := rapid.Bool().Draw(rt, "longForm")
-		c.set("instances", descs)
-		c.set("class_index_offset", k)
-		r.Current(fmt.Sprintf("C05 random %v k=%d long=%v", descs, k, long))
-		opt := refcodec.EncOptions{PadExact: k, ForceLongObject: long, HoistAnywhere: rapid.Bool().Draw(rt, "hoist")}
-		b, failure, harness := c05Check(objs, exps, opt, rapidChoices{rt})
-		if harness != "" {
-			harnessBug(rt, "C05", "%s (%v)", harness, descs)
-		}
-		r.Eval()
-		r.NonTrivial(av.Hash(fmt.Sprintf("%x", b)))
-		r.Label(fmt.Sprintf("random:instances=%d", ninst))
-		r.Sample(func() interface{} {
-			return map[string]interface{}{"instances": descs, "class_index_offset": k, "long_form": long, "bytes": hexClip(b, 80), "what": "random"}
-		})
-		if failure != "" {
-			c.set("bytes", hexClip(b, 1000))
-			failf(rt, c, "C05 %d instance(s) %v, class index offset %d, long form %v: %s\n bytes: %s", ninst, descs, k, long, failure, hexClip(b, 300))
+			b, failure, harness := c05CheckWith(useDec, objs, exps, opt, rapidChoices{rt})
+			if harness != "" {
+				harnessBug(rt, "C05", "%s (%v)", harness, descs)
+			}
+			r.Eval()
+			r.NonTrivial(av.Hash(fmt.Sprintf("%x", b)))
+			r.Label(fmt.Sprintf("random:instances=%d", ninst))
+			r.Sample(func() interface{} {
+				return map[string]interface{}{"instances": descs, "class_index_offset": k, "long_form": long, "bytes": hexClip(b, 80), "what": "random"}
+			})
+			if failure != "" {
+				c.set("bytes", hexClip(b, 1000))
+				failf(rt, c, "C05 %d instance(s) %v, class index offset %d, long form %v: %s\n bytes: %s", ninst, descs, k, long, failure, hexClip(b, 300))
+			}
 		}
 	})
 }
